@@ -14,6 +14,18 @@ CLAIMED = {
          "Decides clauses R15.1-R15.5: every proposal status change executes only where p.Status cannot be APPROVED/REJECTED (forward dataflow refined by the code's own comparisons, lifted through helper pre/post-conditions to all call sites); vote admission (role answer before setVote; tally and ballot writes behind electorate membership and ballot-absent edges; persistence only on approve/reject); special proposals reach the decision only after the super-admin vote; handleResult is preceded by a concluding call and follows every direct concluding change; the decision function is fed the proposal's own tally fields. Structural necessary conditions; not the tally arithmetic.",
          "go/ssa model; govaluate semantics and role data trusted; helper postconditions computed from the helpers' own bodies",
          "DESIGN.md section 5 C15"),
+ "C02": ("SSA must-pass-through of the index gate, finite-ordering evaluation of checkIndex, who-may-write analysis of the counter maps, argument-coherence rule",
+         "Decides clauses R02.1-R02.4: every accepting path of checkIBTP crosses checkIndex(counter[dst]+1, ibtp.Index) (or the explicit unordered-destination edge); checkIndex returns nil exactly for cur==exp (all three orderings evaluated); the four counter maps are written only in functions reachable solely through HandleIBTP, behind the no-error edges of checkIBTP and begin/report; the request counter advances by exactly one; one interchain event per accepted IBTP; (from,to,index) triples are coherent. Structural necessary conditions; counter values over histories are not decided.",
+         "go/ssa model; TransactionManager/Service contracts behave as their own checks say; unordered (batch) services are outside the property's 'ordered pair'",
+         "DESIGN.md section 5 C02"),
+ "C03": ("SSA dominance/must-pass-through rules on the proof pipeline, contradiction rule on the CheckProof result contract, BVM entry reachability",
+         "Decides clauses R03.1-R03.6: proofs are verified before transactions are applied, the only ways out of verifyProofs before the join are the three enumerated ones, CheckProof runs for every loop element; a rejecting CheckProof return always carries a non-nil error (consumer dereferences it); an invalid reason short-circuits every VM entry; the rule engine / multi-sign check run only after sha256(proof)==ibtp.Proof with the address from getValidateAddress, which selects only an available rule; the validator counter is incremented only for set members that are removed, success only above (n-1)/3; no unguarded dispatchable entry reaches HandleIBTP. Not the correctness of a rule's verdict.",
+         "go/ssa model; validator engine, ecdsa recovery and pinned dependencies trusted; group partition arithmetic not covered",
+         "DESIGN.md section 5 C03"),
+ "C07": ("SSA must-follow (revert on every failing path, lifted to callers), journaling model of internal/ledger derived from its own code, CHA boundary-call analysis, receipt-success edge reachability",
+         "Decides clauses R07.1-R07.5: after every VM entry of the executor each failing path reverts to a snapshot taken before the entry (or returns the error to a caller that does); the snapshot of applyTransaction precedes execution and the fee-failure branch reverts; no call from VM-side code reaches a ledger writer that stores dirty state without a journal entry; the ledger's changer object is never replaced while accounts point to it; interchain deliveries are fed only from successful receipts; read-only execution clears after each transaction and reaches no persistence. Not EVM/wasm internals.",
+         "go/ssa model + CHA restricted to module types; revert functions restore what they journal (C13); EVM and wasmtime trusted",
+         "DESIGN.md section 5 C07"),
 }
 NOT_APPLICABLE = {}
 
